@@ -1,6 +1,8 @@
-"""C13 ThresholdCounter"""
+"""C13 funcutils.wraps / update_wrapper / FunctionBuilder"""
 LEVEL = 'exploration'
-LEVEL_TEXT = 'bounded stand-in only (deductive part pending)'
+LEVEL_TEXT = 'bounded stand-in only (no deductive part: FunctionBuilder emits source text and exec()s it)'
 LEVEL_NOTE = 'bounded'
-TECHNIQUE = 'executable contracts on the real ThresholdCounter, bounded-exhaustive streams'
+TECHNIQUE = ('executable contracts on the real wraps/update_wrapper over an enumerated family of signatures '
+             '(parameter kinds x defaults x annotations x sync/async) x all call shapes x injected/expected variants; '
+             'oracle = the interpreter binding calls to the wrapped function / inspect.Signature.bind')
 EXPLANATION = 'C13'
